@@ -18,9 +18,10 @@ for rf in sorted(glob.glob("/tmp/seed/res-*.json")):
         rejected.append((name, {k: r.get(k) for k in ("applies", "demo_without_change", "demo_with_change", "pinned_suite_with_change")}))
         continue
     dst = os.path.join(ROOT, "seeded", name)
-    prev_checks = {}
+    prev_checks, neutralised = {}, None
     try:
-        prev_checks = json.load(open(os.path.join(dst, "meta.json"))).get("verified", {}).get("checks", {})
+        pm = json.load(open(os.path.join(dst, "meta.json")))
+        prev_checks, neutralised = pm.get("verified", {}).get("checks", {}), pm.get("neutralised")
     except Exception:
         pass
     shutil.rmtree(dst, ignore_errors=True)
@@ -44,6 +45,8 @@ for rf in sorted(glob.glob("/tmp/seed/res-*.json")):
     # results of earlier runs against other checks are kept; a newer run of the same check replaces the older one
     for k, v in prev_checks.items():
         meta["verified"]["checks"].setdefault(k, v)
+    if neutralised:
+        meta["neutralised"] = neutralised
     json.dump(meta, open(os.path.join(dst, "meta.json"), "w"), indent=1)
     kept.append((name, caught))
 for k in kept:
